@@ -36,7 +36,8 @@ Exec::SolveOut Exec::raw_solve(mpq_QSprob p, const std::string &how, int algo, b
 
 void Exec::op_solve(Client &c) {
 	Obj *o = pick_obj(c, op->i("o")); if (!o || o->broken) { T("  skip"); return; }
-	std::string how = op->s("how", "exact"); if (how != "exact" && how != "primal" && how != "dual") how = "exact";
+	std::string how = op->s("how", "exact");
+	if (avoiding("solve_empty_dim") && (o->m.cols.empty() || o->m.rows.empty())) { T("  skip (known finding shape: solve without rows or columns)"); return; } if (how != "exact" && how != "primal" && how != "dual") how = "exact";
 	int algo = op->i("algo", 1) == 2 ? DUAL_SIMPLEX : PRIMAL_SIMPLEX;
 	bool wantx = op->i("wantx", 1), wanty = op->i("wanty", 1), wantb = op->i("wantb", 1);
 	const StoredBasis *warm = 0; StoredBasis warmcopy;
@@ -56,6 +57,7 @@ void Exec::op_solve(Client &c) {
 	if (how != "exact") faulted = false;
 	world.cur_model = &o->m;
 	std::string life_before = o->life;
+	if (how == "exact") QSexact_set_precision(cur_precision);   // the start precision is a per-call knob of the plan, not a leftover of earlier solves
 	SolveOut so = raw_solve(o->p, how, algo, wantx, wanty, warm, wantb);
 	world.cur_model = 0; world.limit_at_read = -1; world.cancel_at = -1;
 	if (iter_set) mpq_QSset_param(o->p, QS_PARAM_SIMPLEX_MAX_ITERATIONS, saved_iter);
@@ -63,7 +65,7 @@ void Exec::op_solve(Client &c) {
 	after_lib_call("solve:" + how);
 	int stages = (int)world.stages.size();
 	std::string ladder; for (auto &s : world.stages) { ladder += strf("[%s%u:%s", s.kind ? "mpf" : "dbl", s.prec, status_name(s.real_status).c_str()); if (s.told_status != s.real_status) ladder += ">" + status_name(s.told_status); for (auto &k : s.faults) ladder += "!" + k.substr(4); ladder += "]"; }
-	T(strf("  solve %s algo=%d rv=%d status=%s stages=%d %s", how.c_str(), algo, so.rv, status_name(so.status).c_str(), stages, ladder.c_str()));
+	T(strf("  solve obj%d %dx%d %s algo=%d rv=%d status=%s stages=%d %s", o->uid, (int)o->m.rows.size(), (int)o->m.cols.size(), how.c_str(), algo, so.rv, status_name(so.status).c_str(), stages, ladder.c_str()));
 	if (!world.copy_mismatch.empty()) violate("C16", "reduced-copy-differs:" + std::string(world.copy_mismatch.substr(0, 8)), world.copy_mismatch, false);
 	// probes
 	if (how == "exact") {
@@ -75,17 +77,19 @@ void Exec::op_solve(Client &c) {
 	}
 	if (interrupted && so.rv == 0 && !definitive(so.status)) probe("solve.interrupted");
 	bool faults_before_last = faulted && all_recoverable && max_fault_stage < stages - 1 && max_fault_stage <= 8;
+	std::string stageset; { std::set<std::string> ss; for (auto &st : world.stages) ss.insert(status_name(st.real_status)); for (auto &x : ss) stageset += (stageset.empty() ? "" : "+") + x; }
+	bool empty_lp = o->m.cols.empty() && o->m.rows.empty();
 	signature("solve:" + how + ":" + life_before + ":" + status_name(so.status) + strf(":rv%d:", so.rv != 0) + ladder.substr(0, 80));
 
 	judge_solve(*o, so, how, interrupted, faulted);
 	if (stop || o->broken) { compare_others("solve"); return; }
 
 	// C03: bounded liveness of the retry ladder / plain truth
-	bool c03_applies = how == "exact" && !interrupted && o->limits_default && (!faulted || faults_before_last) && o->m.well_formed();
+	bool c03_applies = how == "exact" && !interrupted && o->limits_default && (!faulted || faults_before_last) && o->m.well_formed() && !(o->m.cols.empty() && o->m.rows.empty());
 	if (c03_applies) {
 		nontrivial("C03");
 		std::string cls = faulted ? "ladder-recovery" : "plain";
-		if (so.rv != 0 || !definitive(so.status)) violate("C03", cls + ":non-definitive:" + status_name(so.status) + strf(":rv%d", so.rv != 0), strf("exact solver with default limits returned rv=%d status %s %s", so.rv, status_name(so.status).c_str(), ladder.c_str()));
+		if (so.rv != 0 || !definitive(so.status)) violate("C03", cls + ":non-definitive:" + status_name(so.status) + strf(":rv%d", so.rv != 0) + ":stages-" + stageset, strf("exact solver with default limits returned rv=%d status %s %s", so.rv, status_name(so.status).c_str(), ladder.c_str()));
 	}
 	// truth on small LPs (C03 for the exact driver under default limits, C04 for every other way of driving)
 	if (so.rv == 0 && definitive(so.status) && o->m.well_formed()) {
@@ -94,16 +98,17 @@ void Exec::op_solve(Client &c) {
 		std::string cfg = how + strf(":a%d:pp%d:dp%d:sc%d:w%d:%s", algo, o->iparam.count(QS_PARAM_PRIMAL_PRICING) ? o->iparam[QS_PARAM_PRIMAL_PRICING] : 0, o->iparam.count(QS_PARAM_DUAL_PRICING) ? o->iparam[QS_PARAM_DUAL_PRICING] : 0,
 			o->iparam.count(QS_PARAM_SIMPLEX_SCALING) ? o->iparam[QS_PARAM_SIMPLEX_SCALING] : -1, warm ? 1 : 0, life_before.c_str());
 		const char *prop = c03_applies ? "C03" : "C04";
-		bool judge_truth = c03_applies || !faulted || faults_before_last;   // a lie in the final stage is not correctable by design
+		bool judge_truth = (c03_applies || !faulted || faults_before_last) && !empty_lp;   // a lie in the final stage is not correctable by design
 		if (t.status && t.err.empty() && judge_truth) {
-			if (t.status != so.status) violate(prop, std::string(faulted ? "ladder-recovery" : "plain") + ":wrong-status:" + status_name(so.status) + "-truth-" + status_name(t.status), "status " + status_name(so.status) + " but the LP is " + status_name(t.status) + " [" + cfg + "] " + ladder);
-			else if (so.status == QS_LP_OPTIMAL && have_val && val != t.value) violate(prop, std::string(faulted ? "ladder-recovery" : "plain") + ":wrong-value", "value " + qstr(val) + " but the true optimum is " + qstr(t.value) + " [" + cfg + "] " + ladder);
+			if (t.status != so.status) violate(prop, std::string(faulted ? "ladder-recovery" : "plain") + ":wrong-status:" + how + ":" + status_name(so.status) + "-truth-" + status_name(t.status), "status " + status_name(so.status) + " but the LP is " + status_name(t.status) + " [" + cfg + "] " + ladder);
+			else if (so.status == QS_LP_OPTIMAL && have_val && val != t.value) violate(prop, std::string(faulted ? "ladder-recovery" : "plain") + ":wrong-value:" + how, "value " + qstr(val) + " but the true optimum is " + qstr(t.value) + " [" + cfg + "] " + ladder);
 			else { if (!c03_applies) nontrivial("C04"); probe("truth.agreed"); }
 		}
-		if (judge_truth) { Outcome oc; oc.config = cfg; oc.status = so.status; oc.value = have_val ? val : Q(0); oc.step = step; outcomes[o->m.canon()].push_back(oc); }
+		if (judge_truth) { Outcome oc; oc.how = how; oc.config = cfg; oc.status = so.status; oc.value = have_val ? val : Q(0); oc.step = step; outcomes[o->m.canon()].push_back(oc); }
 	}
 	// C05(a): same answer as a freshly built copy of the current LP
-	if (!stop && so.rv == 0 && definitive(so.status) && plan.knobi("fresh", 1) && (o->ever_solved || o->ever_interrupted || life_before == "edited" || life_before == "verdict")) fresh_compare(*o, so, how, algo);
+	bool costly = how == "exact" && stages >= 13 && (step % 4) != 0;   // whole-ladder walks are re-done by the fresh solve: sample them
+	if (!stop && !costly && so.rv == 0 && definitive(so.status) && plan.knobi("fresh", 1) && (o->ever_solved || o->ever_interrupted || life_before == "edited" || life_before == "verdict")) fresh_compare(*o, so, how, algo);
 	o->ever_solved = true; if (interrupted && !definitive(so.status)) o->ever_interrupted = true;
 	o->last_status = so.status; o->edited_since_solve = false;
 	o->life = so.rv == 0 && so.status == QS_LP_OPTIMAL ? "optimal" : (so.rv == 0 && definitive(so.status)) ? "other" : "interrupted";
@@ -158,6 +163,7 @@ void Exec::fresh_compare(Obj &o, const SolveOut &so, const std::string &how, int
 	mpq_QSprob q = lib_build(o.m, hows[modn(step, 4)], &err);
 	if (!q) { res.harness_error = "fresh build failed: " + err; return; }
 	const Op *saved = world.cur_op; world.cur_op = 0;   // the reference solve is fault-free
+	if (how == "exact") QSexact_set_precision(128);
 	SolveOut fo = raw_solve(q, how, algo, false, false, 0, false);
 	Q fval; bool fhv = false; if (fo.rv == 0 && fo.status == QS_LP_OPTIMAL) { QArr v(1); if (!mpq_QSget_objval(q, v.p())) { fval = lib_to_q(v.at(0)); fhv = true; } }
 	mpq_QSfree_prob(q);
@@ -229,7 +235,7 @@ void Exec::op_basis(Client &c) {
 		after_lib_call("loadbasis");
 		T(strf("  %s rv=%d counts_ok=%d %s|%s", what.c_str(), rv, e.counts_ok, b.cstat.c_str(), b.rstat.c_str()));
 		if (rv == 0) { StoredBasis back; if (get_basis(*o, back) && (back.cstat != b.cstat || back.rstat != b.rstat)) probe("basis.load_readback_differs"); o->life = o->life == "empty" ? "empty" : "edited"; }
-		else if (e.counts_ok) violate("C06", "loadbasis-rejected-valid", "a basis with valid counts and statuses was rejected: " + b.cstat + "|" + b.rstat);
+		else if (e.counts_ok && [&] { for (size_t i = 0; i < b.rstat.size(); i++) if (b.rstat[i] == '2' && o->m.rows[i].sense != 'R') return false; return true; }()) violate("C06", "loadbasis-rejected-valid", "a basis with valid counts and statuses was rejected: " + b.cstat + "|" + b.rstat);
 		signature("loadbasis:" + o->life + strf(":%d", rv != 0));
 	}
 	compare_others("basis");
